@@ -48,6 +48,7 @@ import (
 	"crypto/elliptic"
 	"crypto/rand"
 	"crypto/rsa"
+	"crypto/sha1"
 	"crypto/sha256"
 	stdx509 "crypto/x509"
 	"crypto/x509/pkix"
@@ -141,7 +142,8 @@ var (
 	rsaCerts  []*x509.Certificate
 	ecdsaKey  *ecdsa.PrivateKey
 	certOnce  sync.Once
-	passwords = map[string]string{"empty": "", "ascii": "verif-pw 123", "nonascii": "pässwörd-密码", "nonbmp": "pw-\U0001F511"}
+	passwords = map[string]string{"empty": "", "ascii": "verif-pw 123", "nonascii": "pässwörd-密码", "nonbmp": "pw-\U0001F511",
+		"mixed": "Aa0 \u00e9\u4e2d\u6587-\uffe5~!", "long40": "0123456789abcdefghijklmnopqrstuvwxyzABCD"}
 )
 
 func must(err error) {
@@ -375,13 +377,27 @@ func makeSM2Signed(kind string, withAttrs, detached bool, content []byte, certId
 	case "sm2-sm3b":
 		digOID, encOID = oidHashSM3, oidSM3withSM2
 		digest = sm3.Sm3Sum(content)
+	case "rsa-sha1", "rsa-sha1e":
+		// an RSA signer built by hand (the library's AddSigner always writes signed attributes): SHA-1 digest,
+		// sha1WithRSAEncryption or plain rsaEncryption as the signature algorithm
+		digOID, encOID = asn1.ObjectIdentifier{1, 3, 14, 3, 2, 26}, asn1.ObjectIdentifier{1, 2, 840, 113549, 1, 1, 5}
+		if kind == "rsa-sha1e" {
+			encOID = asn1.ObjectIdentifier{1, 2, 840, 113549, 1, 1, 1}
+		}
+		d := sha1.Sum(content)
+		digest = d[:]
 	default:
 		digOID, encOID = oidSHA256, oidDSASM2
 		d := sha256.Sum256(content)
 		digest = d[:]
 	}
+	isRSA := strings.HasPrefix(kind, "rsa-")
+	signerCert, listCert := sm2Certs[0], sm2Certs[certIdx]
+	if isRSA {
+		signerCert, listCert = rsaCerts[0], rsaCerts[certIdx]
+	}
 	si := signerInfo{Version: 1,
-		IssuerAndSerialNumber:     issuerAndSerial{IssuerName: asn1.RawValue{FullBytes: sm2Certs[0].RawIssuer}, SerialNumber: sm2Certs[0].SerialNumber},
+		IssuerAndSerialNumber:     issuerAndSerial{IssuerName: asn1.RawValue{FullBytes: signerCert.RawIssuer}, SerialNumber: signerCert.SerialNumber},
 		DigestAlgorithm:           pkix.AlgorithmIdentifier{Algorithm: digOID},
 		DigestEncryptionAlgorithm: pkix.AlgorithmIdentifier{Algorithm: encOID}}
 	signed := content
@@ -389,7 +405,14 @@ func makeSM2Signed(kind string, withAttrs, detached bool, content []byte, certId
 		si.AuthenticatedAttributes = makeAttrs(digest)
 		signed = marshalAttributes(si.AuthenticatedAttributes)
 	}
-	sig, err := sm2Keys[0].Sign(rand.Reader, signed, nil)
+	var sig []byte
+	var err error
+	if isRSA {
+		h := sha1.Sum(signed)
+		sig, err = rsa.SignPKCS1v15(rand.Reader, rsaKeys[0], crypto.SHA1, h[:])
+	} else {
+		sig, err = sm2Keys[0].Sign(rand.Reader, signed, nil)
+	}
 	must(err)
 	si.EncryptedDigest = sig
 	ci := contentInfo{ContentType: oidData}
@@ -398,7 +421,7 @@ func makeSM2Signed(kind string, withAttrs, detached bool, content []byte, certId
 		must(err)
 		ci.Content = asn1.RawValue{Class: 2, Tag: 0, Bytes: oct, IsCompound: true}
 	}
-	certs, err := asn1.Marshal(asn1.RawValue{Bytes: sm2Certs[certIdx].Raw, Class: 2, Tag: 0, IsCompound: true})
+	certs, err := asn1.Marshal(asn1.RawValue{Bytes: listCert.Raw, Class: 2, Tag: 0, IsCompound: true})
 	must(err)
 	sd := signedData{Version: 1, DigestAlgorithmIdentifiers: []pkix.AlgorithmIdentifier{{Algorithm: digOID}}, ContentInfo: ci,
 		Certificates: rawCertificates{Raw: certs}, SignerInfos: []signerInfo{si}}
@@ -965,6 +988,8 @@ func runCase(line string) string {
 			return runVER(f)
 		case "SEL":
 			return runSEL(f)
+		case "SGN":
+			return runSGN(f)
 		case "PW":
 			return runPW(f)
 		case "PL":
@@ -1073,6 +1098,9 @@ func gen(seed uint64, tier string) []string {
 			}
 			for _, n := range big_ {
 				add("E # %s %s %d %d %s", alg, kt, 2, 0, hx.Hex(r.Bytes(n)))
+				if tier == "thorough" || n == 65536 {
+					add("E # %s %s %d %d %s", alg, kt, 1+r.Intn(3), modes[r.Intn(len(modes))], hx.Hex(r.Bytes(n)))
+				}
 			}
 		}
 	}
@@ -1082,8 +1110,11 @@ func gen(seed uint64, tier string) []string {
 		add("E # des rsa 1 0 %s", hx.Hex(append(r.Bytes(8), hx.UnHex(tail)...)))
 	}
 	// signed data
-	for _, kind := range []string{"sm2-sm3", "sm2-sm3b", "sm2-sha256", "rsa-lib", "sm2-lib"} {
+	for _, kind := range []string{"sm2-sm3", "sm2-sm3b", "sm2-sha256", "rsa-sha1", "rsa-sha1e", "rsa-lib", "sm2-lib"} {
 		for _, at := range []int{0, 1} {
+			if at == 0 && strings.HasSuffix(kind, "-lib") {
+				continue // AddSigner always writes signed attributes; the attribute-less signers are the hand-built kinds
+			}
 			for _, det := range []int{0, 1} {
 				for _, n := range []int{0, 1, 31, 32, 33, 64, 100, 1000, 4096, 65536} {
 					add("S # %s %d %d %s", kind, at, det, hx.Hex(r.Bytes(n)))
@@ -1092,7 +1123,7 @@ func gen(seed uint64, tier string) []string {
 		}
 	}
 	// PKCS#12 round trips
-	for _, pk := range []string{"empty", "ascii", "nonascii", "nonbmp"} {
+	for _, pk := range []string{"empty", "ascii", "nonascii", "mixed", "long40"} {
 		for _, kk := range []string{"sm2", "ecdsa", "rsa"} {
 			for _, ck := range []string{"sm2cert", "rsacert"} {
 				for _, api := range []string{"decode", "decodeall", "decode+ca", "decodeall+ca", "topem", "wrongpw"} {
@@ -1100,6 +1131,10 @@ func gen(seed uint64, tier string) []string {
 				}
 			}
 		}
+	}
+	// a password outside the BMP cannot be written as a BMPString: Encode refuses it (one case per key kind is enough)
+	for _, kk := range []string{"sm2", "ecdsa", "rsa"} {
+		add("P # %s %s %s %s", "nonbmp", kk, "sm2cert", "decodeall")
 	}
 	// long passwords (the BMP string of 32 characters fills one 64-byte hash block) and near-miss wrong passwords
 	mkpw := func(n int, nonASCII bool) []rune {
@@ -1165,8 +1200,34 @@ func gen(seed uint64, tier string) []string {
 	perPos := []int{-1, -2}
 	nSample := 700
 	if tier == "thorough" {
-		perPos = []int{-1, -2, 0x00, 0xff}
+		perPos = []int{-1, -2, -3, -4, 0x00, 0xff}
 		nSample = 1 << 30
+	}
+	// the replacement values of a position: in the quick tier two out of {^01, ^80, ^10, ^55, 00, ff}, chosen with the seed
+	valueSet := []int{-1, -2, -3, -4, 0x00, 0xff}
+	valuesAt := func() []int {
+		if tier == "thorough" {
+			return perPos
+		}
+		i := r.Intn(len(valueSet))
+		return []int{valueSet[i], valueSet[(i+1+r.Intn(len(valueSet)-1))%len(valueSet)]}
+	}
+	corrupt := func(b byte, v int) int {
+		x := v
+		switch v {
+		case -1:
+			x = int(b) ^ 1
+		case -2:
+			x = int(b) ^ 0x80
+		case -3:
+			x = int(b) ^ 0x10
+		case -4:
+			x = int(b) ^ 0x55
+		}
+		if x == int(b) {
+			x ^= 0x55
+		}
+		return x & 0xff
 	}
 	for _, pk := range []string{"ascii", "empty", "nonascii"} {
 		for _, kk := range []string{"sm2", "ecdsa"} {
@@ -1180,16 +1241,7 @@ func gen(seed uint64, tier string) []string {
 				isLen[p] = true
 			}
 			emit := func(p, v int) {
-				switch v {
-				case -1:
-					v = int(data[p]) ^ 1
-				case -2:
-					v = int(data[p]) ^ 0x80
-				}
-				if v == int(data[p]) {
-					v ^= 0x55
-				}
-				add("PC # %s %d %d %s %s %s", pk, p, v, hx.Hex(data), keyD(key), hx.Hex(sm2Certs[0].Raw))
+				add("PC # %s %d %d %s %s %s", pk, p, corrupt(data[p], v), hx.Hex(data), keyD(key), hx.Hex(sm2Certs[0].Raw))
 			}
 			for _, p := range lo {
 				for _, v := range []int{int(data[p]) + 1, int(data[p]) - 1, 0, 0x80} {
@@ -1204,7 +1256,7 @@ func gen(seed uint64, tier string) []string {
 				}
 			}
 			for p := r.Intn(stride); p < len(data); p += stride {
-				for _, v := range perPos {
+				for _, v := range valuesAt() {
 					emit(p, v)
 				}
 			}
@@ -1218,38 +1270,31 @@ func gen(seed uint64, tier string) []string {
 		if tier != "thorough" {
 			stride = len(der)/500 + 1
 		}
-		for p := 0; p < len(der); p += stride {
-			for _, v := range perPos {
-				x := int(der[p]) ^ 1
-				if v == -2 {
-					x = int(der[p]) ^ 0x80
-				} else if v >= 0 {
-					x = v
-					if x == int(der[p]) {
-						x ^= 0x55
-					}
-				}
-				add("SC # %d %d %s %s", p, x, hx.Hex(der), hx.Hex(content))
+		for p := r.Intn(stride); p < len(der); p += stride {
+			for _, v := range valuesAt() {
+				add("SC # %d %d %s %s", p, corrupt(der[p], v), hx.Hex(der), hx.Hex(content))
 			}
 		}
 	}
 	// the verification logic against its model: genuine, tampered and corrupted signed data
-	addVER := func(der, det []byte, isDet bool) {
+	// exp: what the PROPERTY says about the case (ok: genuine; err: content, certificate list or signature altered;
+	// any: a single corrupted byte, which may sit in a part that is not authenticated)
+	addVER := func(der, det []byte, isDet bool, exp string) {
 		id++
-		lines = append(lines, strings.Replace(verLine(der, det, isDet), "#", strconv.Itoa(id), 1))
+		lines = append(lines, strings.Replace(verLine(der, det, isDet), "#", strconv.Itoa(id), 1)+" exp="+exp)
 	}
-	for _, kind := range []string{"sm2-sm3", "sm2-sm3b", "sm2-sha256"} {
+	for _, kind := range []string{"sm2-sm3", "sm2-sm3b", "sm2-sha256", "rsa-sha1", "rsa-sha1e"} {
 		for _, at := range []bool{true, false} {
 			for _, det := range []bool{false, true} {
 				for _, n := range []int{0, 1, 33, 300} {
 					c := r.Bytes(n)
 					der := makeSM2Signed(kind, at, det, c, 0)
-					addVER(der, c, det)
-					addVER(der, append(append([]byte{}, c...), 1), true) // other content
-					addVER(makeSM2Signed(kind, at, det, c, 1), c, det)   // signer certificate missing
+					addVER(der, c, det, "ok")
+					addVER(der, append(append([]byte{}, c...), 1), true, "err") // other content
+					addVER(makeSM2Signed(kind, at, det, c, 1), c, det, "err")   // signer certificate missing
 					d3 := append([]byte{}, der...)
 					d3[len(d3)-1] ^= 1
-					addVER(d3, c, det) // signature altered
+					addVER(d3, c, det, "err") // signature altered
 				}
 			}
 		}
@@ -1260,11 +1305,11 @@ func gen(seed uint64, tier string) []string {
 			if err != nil {
 				continue
 			}
-			addVER(lib, content, det)
-			addVER(lib, []byte("other content"), true)
+			addVER(lib, content, det, "ok")
+			addVER(lib, []byte("other content"), true, "err")
 			d3 := append([]byte{}, lib...)
 			d3[len(d3)-1] ^= 1
-			addVER(d3, content, det)
+			addVER(d3, content, det, "err")
 		}
 	}
 	for _, at := range []bool{true, false} {
@@ -1277,7 +1322,7 @@ func gen(seed uint64, tier string) []string {
 			for _, v := range []int{1, 0x80, 0xff} {
 				d := append([]byte{}, der...)
 				d[p] ^= byte(v)
-				addVER(d, nil, false)
+				addVER(d, nil, false, "any")
 			}
 		}
 	}
@@ -1371,12 +1416,16 @@ func gen(seed uint64, tier string) []string {
 			if kt == "rsa" {
 				cert = rsaCerts[0].Raw
 			}
-			for p := 0; p < len(env); p += stride {
-				add("EC # %s %s %d %d %d %s %s %s", alg, kt, 0, p, int(env[p])^1, hx.Hex(env), hx.Hex(content), hx.Hex(cert))
+			for p := r.Intn(stride); p < len(env); p += stride {
+				for _, v := range valuesAt() {
+					add("EC # %s %s %d %d %d %s %s %s", alg, kt, 0, p, corrupt(env[p], v), hx.Hex(env), hx.Hex(content), hx.Hex(cert))
+				}
 			}
 		}
 	}
 	_ = crypto.SHA1
+	// the signing side against the model: algorithm choice, messageDigest attribute, attribute order
+	genSGN(r, tier, func(l string) { add("%s", l) })
 	return lines
 }
 
